@@ -26,10 +26,10 @@ const (
 // Time is the simulated instant.
 type Time struct{ ns int64 }
 
-func Now() Time                  { return Time{zz_simctl.NowNanos()} }
-func (t Time) UTC() Time         { return t }
-func (t Time) UnixNano() int64   { return t.ns }
-func (t Time) Unix() int64       { return t.ns / 1e9 }
-func (t Time) UnixMilli() int64  { return t.ns / 1e6 }
+func Now() Time                    { return Time{zz_simctl.NowNanos()} }
+func (t Time) UTC() Time           { return t }
+func (t Time) UnixNano() int64     { return t.ns }
+func (t Time) Unix() int64         { return t.ns / 1e9 }
+func (t Time) UnixMilli() int64    { return t.ns / 1e6 }
 func (t Time) Sub(u Time) Duration { return Duration(t.ns - u.ns) }
-func Since(t Time) Duration      { return Duration(zz_simctl.NowNanos() - t.ns) }
+func Since(t Time) Duration        { return Duration(zz_simctl.NowNanos() - t.ns) }
